@@ -240,7 +240,8 @@ class RepositoryMachine(Machine):
             fam = rng.choice(fams)
             if u < 0.32:
                 key = self._pick_key(rng, g, fam, species, written)
-                ops.append({"op": "add", "fam": fam, "root": root, "key": key, "payload": g.payload(fam)})
+                ops.append({"op": "add", "fam": fam, "root": root, "key": key, "payload": g.payload(fam),
+                            "as": rng.choice(["list", "list", "tuple", "ndarray", "npcharge"]), "pathlib": rng.random() < 0.15})
                 written.append((fam, key))
             elif u < 0.52:
                 entries = []
@@ -248,7 +249,8 @@ class RepositoryMachine(Machine):
                     key = self._pick_key(rng, g, fam, species, written)
                     entries.append({"key": key, "payload": g.payload(fam)})
                     written.append((fam, key))
-                op = {"op": "update", "fam": fam, "root": root, "entries": entries}
+                op = {"op": "update", "fam": fam, "root": root, "entries": entries,
+                      "as": rng.choice(["list", "list", "tuple", "ndarray", "npcharge"]), "pathlib": rng.random() < 0.15}
                 if rng.random() < 0.35:
                     # also re-send, unchanged, up to two payloads already stored in this family (an idempotent re-write
                     # mixed with new data: "last write wins" must not depend on whether the written value is new)
@@ -360,10 +362,28 @@ class RepositoryMachine(Machine):
     def _sp(self, s):
         return SPECIES[s]
 
-    def _call_add(self, fam, key, payload, root):
+    def _variant(self, payload, how):
+        """The same numbers in another container type (tuples / float64 ndarrays); the expectation is unchanged."""
         p = copy.deepcopy(payload)
+        if how in ("tuple", "ndarray"):
+            def conv(v):
+                if isinstance(v, list):
+                    if how == "ndarray":
+                        return np.array(v, dtype=np.float64)
+                    return tuple(conv(x) for x in v)
+                return v
+            p = {k: conv(v) for k, v in p.items()}
+        return p
+
+    def _call_add(self, fam, key, payload, root, how="list", pathlib_root=False):
+        p = self._variant(payload, how)
         rp = self._root(root)
-        k = key
+        if pathlib_root:
+            import pathlib
+            rp = pathlib.PurePosixPath(rp)
+        k = dict(key)
+        if how == "npcharge":
+            k["ch"] = np.int64(k["ch"])          # a charge that is an integer but not a Python int
         S = self._sp
         tr = tuple(k["tr"]) if "tr" in k else None
         if fam in ADF11:
@@ -419,13 +439,16 @@ class RepositoryMachine(Machine):
                 "beam_stopping": ["b", "sp", "ch"], "beam_population": ["b", "m", "sp", "ch"],
                 "beam_emission": ["b", "sp", "ch", "tr"]}.get(fam, ["sp", "ch"])
 
-    def _call_update(self, fam, entries, root, species_override=None, cls_override=None):
+    def _call_update(self, fam, entries, root, species_override=None, cls_override=None, how="list", pathlib_root=False):
         rp = self._root(root)
+        if pathlib_root:
+            import pathlib
+            rp = pathlib.PurePosixPath(rp)
         S = (lambda s: species_override.get(s, SPECIES[s])) if species_override else self._sp
         d = {}
         for e in entries:
             k = e["key"]
-            p = copy.deepcopy(e["payload"])
+            p = self._variant(e["payload"], how)
             tr = tuple(k["tr"]) if "tr" in k else None
             if fam in ADF11:
                 self._nest(d, [S(k["sp"]), k["ch"]], p)
@@ -652,9 +675,10 @@ class RepositoryMachine(Machine):
                 env.probe("update_touched_file_holding_3plus_keys")
         try:
             if op["op"] == "add":
-                self._call_add(fam, op["key"], op["payload"], root)
+                self._call_add(fam, op["key"], op["payload"], root, how=op.get("as", "list"), pathlib_root=bool(op.get("pathlib")))
             else:
-                self._call_update(fam, entries, root)
+                self._call_update(fam, entries, root, how=op.get("as", "list") if op.get("as") != "npcharge" else "list",
+                                  pathlib_root=bool(op.get("pathlib")))
             raised = None
         except Exception as e:
             raised = e
